@@ -121,6 +121,10 @@ def gen_case(rng, tier, g):
         # the petl logger with a handler that formats every record, or one
         # that also keeps the records (MemoryHandler, pytest's caplog)
         case['knobs']['logging'] = 'retain' if r < 0.18 else 'format'
+    if rng.random() < 0.04:
+        # the history runs in a forked child of the process that imported
+        # petl (a multiprocessing worker)
+        case['forked'] = True
     if nviews == 1 and rng.random() < 0.2:
         # enumeration mode: instead of one sampled history, EVERY
         # abandonment point x release order, and a source failure at EVERY
